@@ -88,7 +88,7 @@ class bin_stream(object):
 
         # Get initial bytes
         if n > self.getlen() * 8:
-            raise IOError('not enough bits %r %r' % (n, len(self.bin) * 8))
+            raise IOError('not enough bits %r %r' % (n, self.getlen() * 8))
         byte_start = start // 8
         byte_stop = (start + n + 7) // 8
         temp = self.getbytes(byte_start, byte_stop - byte_start)
@@ -224,6 +224,18 @@ class bin_stream_file(bin_stream):
     def setoffset(self, val):
         self.bin.seek(val - self.base_address)
     offset = property(getoffset, setoffset)
+
+    def _getbytes(self, start, l=1):
+        if start + l - self.base_address > self.l:
+            raise IOError("not enough bytes in file")
+        if start - self.base_address < 0:
+            raise IOError("Negative offset")
+        # Random access must not move the cursor used by readbs/getlen
+        cursor = self.bin.tell()
+        self.bin.seek(start - self.base_address)
+        data = self.bin.read(l)
+        self.bin.seek(cursor)
+        return data
 
     def readbs(self, l=1):
         if self.offset + l - self.base_address > self.l:
